@@ -131,9 +131,7 @@ impl PlainDateTime {
         // NOTE: AddDateTime only guarantees that the resulting date is within the date limits;
         // the date-time as a whole can still fall outside (e.g. -271821-04-19T00:00).
         if !result.is_within_limits() {
-            return Err(
-                TemporalError::range().with_message("DateTime is not within valid limits.")
-            );
+            return Err(TemporalError::range().with_message("DateTime is not within valid limits."));
         }
 
         // 9. Return ? CreateTemporalDateTime(result.[[Year]], result.[[Month]], result.[[Day]], result.[[Hour]],
@@ -208,10 +206,10 @@ impl PlainDateTime {
         }
 
         // 5. Let destEpochNs be GetUTCEpochNanoseconds(isoDateTime2).
-        let dest_epoch_ns = other.iso.as_nanoseconds()?;
+        let dest_epoch_ns = other.iso.as_unchecked_nanoseconds();
         // 6. Return ? RoundRelativeDuration(diff, destEpochNs, isoDateTime1, unset, calendar, largestUnit, roundingIncrement, smallestUnit, roundingMode).
         diff.round_relative_duration(
-            dest_epoch_ns.0,
+            dest_epoch_ns,
             self,
             Option::<(&TimeZone, &NeverProvider)>::None,
             options,
@@ -236,10 +234,10 @@ impl PlainDateTime {
             return FiniteF64::try_from(diff.normalized_time_duration().0);
         }
         // 5. Let destEpochNs be GetUTCEpochNanoseconds(isoDateTime2).
-        let dest_epoch_ns = other.iso.as_nanoseconds()?;
+        let dest_epoch_ns = other.iso.as_unchecked_nanoseconds();
         // 6. Return ? TotalRelativeDuration(diff, destEpochNs, isoDateTime1, unset, calendar, unit).
         diff.total_relative_duration(
-            dest_epoch_ns.0,
+            dest_epoch_ns,
             self,
             Option::<(&TimeZone, &NeverProvider)>::None,
             unit,
